@@ -182,3 +182,16 @@ func (lalr *LALR1) GenErrorCode() int {
 func (lalr *LALR1) GenAcceptCode() int {
 	return len(lalr.G.LR0.LR0Closure) + 200
 }
+
+// walk follows the transitions labelled syms from state and returns the
+// state reached, or -1 when there is no such path.
+func (lalr *LALR1) walk(state int, syms []*symbol.Symbol) int {
+	for _, sy := range syms {
+		index, err := lalr.fetchTransIndex(state, int(sy.ID))
+		if err != nil {
+			return -1
+		}
+		state = lalr.trans[index].to
+	}
+	return state
+}
